@@ -72,6 +72,8 @@ class Field(ComplexDop):
 
     def _resolve_odxlinks(self, odxlinks: OdxLinkDatabase) -> None:
         """Recursively resolve any odxlinks references"""
+        super()._resolve_odxlinks(odxlinks)
+
         if self.structure_ref is not None:
             self._structure = odxlinks.resolve(self.structure_ref, BasicStructure)
 
@@ -81,6 +83,8 @@ class Field(ComplexDop):
 
     def _resolve_snrefs(self, context: SnRefContext) -> None:
         """Recursively resolve any short-name references"""
+        super()._resolve_snrefs(context)
+
         ddds = odxrequire(context.diag_layer).diag_data_dictionary_spec
 
         if self.structure_snref is not None:
